@@ -248,13 +248,20 @@ static int real_main(int argc, char** argv)
                 // gate (i): the same seed re-executed in this process gives the same hash and class.
                 // A data race on once-only state (racy lazy initialisation) cannot recur in the same process: for
                 // that class the confirmation is the fresh-process replay done by the driver, and nothing is shrunk
-                const bool once_only = (cls == "C20:data-race");
+                bool once_only = (cls == "C20:data-race");
                 RunOutput again = once_only ? out : run_plan(p, ro);
                 if (again.event_hash != out.event_hash || !again.has_class(cls))
                 {
-                    engine_errors++;
-                    std::printf("{\"type\":\"engine_error\",\"index\":%ld,\"msg\":\"violation %s did not reproduce in-process\"}\n", idx, cls.c_str());
-                    continue;
+                    // C20: hidden process-global state (a lazily filled cache, a static buffer that has grown) is exactly what
+                    // the property forbids, and it makes a divergence unrepeatable inside the process that already ran it:
+                    // the candidate is written out unshrunk and the driver's fresh-process replay alone decides
+                    if (p.mode == "sched") once_only = true;
+                    else
+                    {
+                        engine_errors++;
+                        std::printf("{\"type\":\"engine_error\",\"index\":%ld,\"msg\":\"violation %s did not reproduce in-process\"}\n", idx, cls.c_str());
+                        continue;
+                    }
                 }
                 int used = 0;
                 Plan failing = p;
@@ -276,6 +283,14 @@ static int real_main(int argc, char** argv)
                 small = roundtrip(small);
                 RunOutput sout = once_only ? out : run_plan(small, ro);
                 if (!sout.has_class(cls)) { small = roundtrip(failing); sout = run_plan(small, ro); }
+                if (!sout.has_class(cls) && p.mode == "fault" && failing.params.has("pos_index") && failing.params.geti("pass", 0) == 0)
+                {
+                    // C14, persistent-solver pass: the damage accumulated over earlier positions - replay the enumeration up to here
+                    Plan q = p;
+                    q.params.set("prefix_upto", (long) failing.params.geti("pos_index", 0)).set("pass", 0);
+                    small = roundtrip(q);
+                    sout = run_plan(small, ro);
+                }
                 if (!sout.has_class(cls))
                 {
                     engine_errors++;
